@@ -353,53 +353,88 @@ def setFs (fss : List (Int × Val)) (i : Int) (v : Val) : List (Int × Val) :=
   | [] => [(i, v)]
   | (k, w) :: rest => if k == i then (i, v) :: rest else (k, w) :: setFs rest i v
 
-/-- `_parse_feature_structure` -/
-def parseFs (K : Consts) (ts : TypeSystem) (tsIdx : Nat) (s : RState) (j : JFs) : Except Err RState := do
-  let tyName := if j.ty.endsWith "[]" then arrayTypeNameFor j.ty else j.ty
-  let t ← getType ts tyName
-  let fsId ← match j.id with
-    | some i => pure i
-    | none => throw Err.typeError           -- `max(None, int)`
-  let addr := s.heap.length
-  let rename := fun (n : String) => if n == "self" then "self_" else if n == "type" then "type_" else n
-  -- attributes: `@` keys become references, `#` keys floats, the rest is passed to the constructor
-  let plain := j.feats.filter (fun p => !(p.1.startsWith "@") && !(p.1.startsWith "#") && !(p.1.startsWith "%"))
-  let refsF := j.feats.filter (fun p => p.1.startsWith "@")
-  let numsF := j.feats.filter (fun p => p.1.startsWith "#")
-  let nums ← numsF.mapM (fun p => do
-    let v ← parseFloatValue p.2
-    pure (rename (String.ofList (p.1.toList.drop 1)), v))
-  let mut kwargs : List (String × Val) := (plain.map (fun p => (rename p.1, valOfJV p.2))) ++ nums
-  let mut deferred := s.deferred
-  if isPrimitiveArray K t.name then
-    let ev ← parsePrimArray t.name j.elements
-    kwargs := kwargs ++ [("elements", ev)]
-  else if t.name == FS_ARRAY then
-    let ids := match j.elements with
-      | some (.refs l) => l
-      | some (.ints l) => l.map some
-      | _ => []
-    deferred := deferred ++ [{ addr := addr, slot := "elements", target := none, elems := some ids }]
-  let o ← construct t tsIdx (some fsId) kwargs
-  let mut heap := s.heap ++ [o]
-  -- `_resolve_references`
-  for p in refsF do
+/-- `_resolve_references`: a reference whose target is already parsed is set at once, the others are deferred -/
+def resolveRefs (rename : String → String) (fss : List (Int × Val)) (addr : Nat) :
+    List (String × JV) → Heap × List Deferred → Except Err (Heap × List Deferred)
+  | [], acc => .ok acc
+  | p :: rest, (heap, deferred) =>
     let key := rename (String.ofList (p.1.toList.drop 1))
     let target := match p.2 with
       | .int i => some i
       | _ => none
-    match target.bind (lookup s.fss) with
-    | some tv => heap ← Heap.setSlot heap addr key tv
-    | none => deferred := deferred ++ [{ addr := addr, slot := key, target := target, elems := none }]
-  -- offsets of annotations are converted through the sofa the structure names
-  if isInstanceOf ts t.name ANNOTATION then
-    match Xmi.slot heap addr "sofa" with
-    | some (.sofa _ vn) =>
-      match Cas.getViewRec s.cas vn with
-      | some view => heap ← Xmi.convertOffsets view.sofa.conv heap addr
-      | none => throw Err.attributeError
-    | _ => throw Err.attributeError
-  pure { s with heap := heap, fss := setFs s.fss fsId (.ref addr), deferred := deferred, maxId := max s.maxId fsId }
+    match target.bind (lookup fss) with
+    | some tv =>
+      match Heap.setSlot heap addr key tv with
+      | .error e => .error e
+      | .ok heap' => resolveRefs rename fss addr rest (heap', deferred)
+    | none => resolveRefs rename fss addr rest (heap, deferred ++ [{ addr := addr, slot := key, target := target, elems := none }])
+
+def renameReserved (n : String) : String := if n == "self" then "self_" else if n == "type" then "type_" else n
+
+/-- the `#` members: float values under their feature names -/
+def parseNums : List (String × JV) → Except Err (List (String × Val))
+  | [] => .ok []
+  | p :: rest =>
+    match parseFloatValue p.2 with
+    | .error e => .error e
+    | .ok v =>
+      match parseNums rest with
+      | .error e => .error e
+      | .ok vs => .ok ((renameReserved (String.ofList (p.1.toList.drop 1)), v) :: vs)
+
+/-- `_parse_feature_structure` -/
+def parseFs (K : Consts) (ts : TypeSystem) (tsIdx : Nat) (s : RState) (j : JFs) : Except Err RState :=
+  let tyName := if j.ty.endsWith "[]" then arrayTypeNameFor j.ty else j.ty
+  match getType ts tyName with
+  | .error e => .error e
+  | .ok t =>
+    match j.id with
+    | none => .error .typeError             -- `max(None, int)`
+    | some fsId =>
+      let addr := s.heap.length
+      -- attributes: `@` keys become references, `#` keys floats, the rest is passed to the constructor
+      let plain := j.feats.filter (fun p => !(p.1.startsWith "@") && !(p.1.startsWith "#") && !(p.1.startsWith "%"))
+      let refsF := j.feats.filter (fun p => p.1.startsWith "@")
+      let numsF := j.feats.filter (fun p => p.1.startsWith "#")
+      match parseNums numsF with
+      | .error e => .error e
+      | .ok nums =>
+        let kwargs0 : List (String × Val) := (plain.map (fun p => (renameReserved p.1, valOfJV p.2))) ++ nums
+        let r : Except Err (List (String × Val) × List Deferred) :=
+          if isPrimitiveArray K t.name then
+            match parsePrimArray t.name j.elements with
+            | .error e => .error e
+            | .ok ev => .ok (kwargs0 ++ [("elements", ev)], s.deferred)
+          else if t.name == FS_ARRAY then
+            let ids := match j.elements with
+              | some (.refs l) => l
+              | some (.ints l) => l.map some
+              | _ => []
+            .ok (kwargs0, s.deferred ++ [{ addr := addr, slot := "elements", target := none, elems := some ids }])
+          else .ok (kwargs0, s.deferred)
+        match r with
+        | .error e => .error e
+        | .ok (kwargs, deferred0) =>
+          match construct t tsIdx (some fsId) kwargs with
+          | .error e => .error e
+          | .ok o =>
+            match resolveRefs renameReserved s.fss addr refsF (s.heap ++ [o], deferred0) with
+            | .error e => .error e
+            | .ok (heap1, deferred) =>
+              -- offsets of annotations are converted through the sofa the structure names
+              let r2 : Except Err Heap :=
+                if isInstanceOf ts t.name ANNOTATION then
+                  match Xmi.slot heap1 addr "sofa" with
+                  | some (.sofa _ vn) =>
+                    match Cas.getViewRec s.cas vn with
+                    | some view => Xmi.convertOffsets view.sofa.conv heap1 addr
+                    | none => .error .attributeError
+                  | _ => .error .attributeError
+                else .ok heap1
+              match r2 with
+              | .error e => .error e
+              | .ok heap =>
+                .ok { s with heap := heap, fss := setFs s.fss fsId (.ref addr), deferred := deferred, maxId := max s.maxId fsId }
 
 /-- `_get_or_create_view` + `_parse_sofa` -/
 def parseSofa (ci : Nat) (s : RState) (j : JFs) : Except Err RState := do
@@ -430,68 +465,130 @@ def parseSofa (ci : Nat) (s : RState) (j : JFs) : Except Err RState := do
   pure { s with cas := c, fss := setFs s.fss fsId (.sofa ci name),
                 maxId := max s.maxId v.sofa.xid, maxNum := max s.maxNum v.sofa.sofaNum }
 
+/-- a byte array a sofa refers to is parsed before the sofa -/
+def parseById (K : Consts) (ts : TypeSystem) (tsIdx : Nat) (i : Int) : List JFs → RState → Except Err RState
+  | [], s => .ok s
+  | j2 :: rest, s =>
+    if j2.id == some i then
+      match parseFs K ts tsIdx s j2 with
+      | .error e => .error e
+      | .ok s' => parseById K ts tsIdx i rest s'
+    else parseById K ts tsIdx i rest s
+
+/-- first pass: the sofas -/
+def sofaPass (K : Consts) (ts : TypeSystem) (tsIdx ci : Nat) (all : List JFs) : List JFs → RState → Except Err RState
+  | [], s => .ok s
+  | j :: rest, s =>
+    if j.ty == SOFA then
+      let r : Except Err RState :=
+        match ((j.feats.find? (fun p => p.1 == "@sofaArray")).map (·.2) : Option JV) with
+        | some (JV.int i) => if (lookup s.fss i).isNone then parseById K ts tsIdx i all s else .ok s
+        | _ => .ok s
+      match r with
+      | .error e => .error e
+      | .ok s1 =>
+        match parseSofa ci s1 j with
+        | .error e => .error e
+        | .ok s2 => sofaPass K ts tsIdx ci all rest s2
+    else sofaPass K ts tsIdx ci all rest s
+
+/-- second pass: everything that is not a sofa -/
+def fsPass (K : Consts) (ts : TypeSystem) (tsIdx : Nat) : List JFs → RState → Except Err RState
+  | [], s => .ok s
+  | j :: rest, s =>
+    if j.ty != SOFA then
+      match parseFs K ts tsIdx s j with
+      | .error e => .error e
+      | .ok s' => fsPass K ts tsIdx rest s'
+    else fsPass K ts tsIdx rest s
+
+/-- deferred references and FSArray elements -/
+def fixUps (fss : List (Int × Val)) : List Deferred → Heap → Except Err Heap
+  | [], heap => .ok heap
+  | d :: rest, heap =>
+    let v : Val := match d.elems with
+      | some ids => .refs (ids.map (fun oi => match oi.bind (lookup fss) with
+          | some (.ref a) => some a
+          | _ => none))
+      | none => (d.target.bind (lookup fss)).getD .none
+    match Heap.setSlot heap d.addr d.slot v with
+    | .error e => .error e
+    | .ok heap' => fixUps fss rest heap'
+
+/-- state of the views pass -/
+structure VState where
+  cas : Cas
+  heap : Heap
+  memberSofas : List (Int × Option Val) := []    -- first-seen `sofa` slot of every member
+
+/-- index the members of one view; a structure that is a member of several views keeps the sofa the document names -/
+def addJMembers (ts : TypeSystem) (ci : Nat) (h : Handle) (fss : List (Int × Val)) : List Int → VState → Except Err VState
+  | [], v => .ok v
+  | m :: ms, v =>
+    match lookup fss m with
+    | some (.ref a) =>
+      let (own, ms') : Option Val × List (Int × Option Val) :=
+        match v.memberSofas.find? (fun q => q.1 == m) with
+        | some q => (q.2, v.memberSofas)
+        | none => (Traverse.slot v.heap a "sofa", v.memberSofas ++ [(m, Traverse.slot v.heap a "sofa")])
+      match Cas.add ts ci v.cas v.heap h a true with
+      | .error e => .error e
+      | .ok (c', heap') =>
+        let r : Except Err Heap := match own with
+          | some w => if w != .none then Heap.setSlot heap' a "sofa" w else .ok heap'
+          | none => .ok heap'
+        match r with
+        | .error e => .error e
+        | .ok heap'' => addJMembers ts ci h fss ms { cas := c', heap := heap'', memberSofas := ms' }
+    | some _ => .error .attributeError
+    | none => .error .keyError
+
+def viewsPass (ts : TypeSystem) (ci : Nat) (lenient : Bool) (fss : List (Int × Val)) : List JView → VState → Except Err VState
+  | [], v => .ok v
+  | jv :: rest, v =>
+    let h : Handle := { view := jv.name, lenient := lenient }
+    let rc : Except Err Cas :=
+      if (Cas.getViewRec v.cas jv.name).isNone then
+        match Cas.createView v.cas { view := Cas.INITIAL_VIEW, lenient := lenient } jv.name none none with
+        | .error e => .error e
+        | .ok (c', _) => .ok c'
+      else .ok v.cas
+    match rc with
+    | .error e => .error e
+    | .ok c =>
+      match addJMembers ts ci h fss jv.members { v with cas := c } with
+      | .error e => .error e
+      | .ok v' => viewsPass ts ci lenient fss rest v'
+
+/-- the type system the document is read with -/
+def loadTs (K : Consts) (tsArg : TypeSystem) (mergeTs : Bool) (doc : JDoc) : Except Err TypeSystem :=
+  if mergeTs then
+    match doc.types with
+    | none => .error .attributeError      -- `None.get(...)`
+    | some types =>
+      match loadEmbeddedTs K types with
+      | .error e => .error e
+      | .ok emb => merge K Gen.builtinTS [tsArg, emb]
+  else .ok tsArg
+
 /-- `CasJsonDeserializer.deserialize` (feature structures given as a list) -/
 def loadJson (K : Consts) (tsArg : TypeSystem) (tsIdx ci : Nat) (lenient mergeTs : Bool) (hp : Heap) (doc : JDoc) :
-    Except Err Loaded := do
-  let ts ←
-    if mergeTs then
-      match doc.types with
-      | none => throw Err.attributeError      -- `None.get(...)`
-      | some types => do
-        let emb ← loadEmbeddedTs K types
-        merge K Gen.builtinTS [tsArg, emb]
-    else pure tsArg
-  let mut s : RState := { cas := Cas.empty, heap := hp }
-  -- sofa pass (a byte array the sofa refers to is parsed first)
-  for j in doc.fss do
-    if j.ty == SOFA then
-      match ((j.feats.find? (fun p => p.1 == "@sofaArray")).map (·.2) : Option JV) with
-      | some (JV.int i) =>
-        if (lookup s.fss i).isNone then
-          for j2 in doc.fss do
-            if j2.id == some i then s ← parseFs K ts tsIdx s j2
-      | _ => pure ()
-      s ← parseSofa ci s j
-  for j in doc.fss do
-    if j.ty != SOFA then s ← parseFs K ts tsIdx s j
-  -- deferred references
-  let mut heap := s.heap
-  for d in s.deferred do
-    match d.elems with
-    | some ids =>
-      let vals := ids.map (fun oi => match oi.bind (lookup s.fss) with
-        | some (.ref a) => some a
-        | _ => none)
-      heap ← Heap.setSlot heap d.addr d.slot (.refs vals)
-    | none =>
-      let v := (d.target.bind (lookup s.fss)).getD .none
-      heap ← Heap.setSlot heap d.addr d.slot v
-  let mut c : Cas := { s.cas with nextXid := s.maxId + 1, nextSofaNum := s.maxNum + 1 }
-  -- views
-  -- a structure that is a member of several views keeps the sofa the document names for it
-  let mut memberSofas : List (Int × Option Val) := []
-  for jv in doc.views do
-    let h : Handle := { view := jv.name, lenient := lenient }
-    if (Cas.getViewRec c jv.name).isNone then
-      let (c', _) ← Cas.createView c { view := Cas.INITIAL_VIEW, lenient := lenient } jv.name none none
-      c := c'
-    for m in jv.members do
-      match lookup s.fss m with
-      | some (.ref a) =>
-        let own : Option Val ← match memberSofas.find? (fun q => q.1 == m) with
-          | some q => pure q.2
-          | none => do
-            let v := Traverse.slot heap a "sofa"
-            memberSofas := memberSofas ++ [(m, v)]
-            pure v
-        let (c', heap') ← Cas.add ts ci c heap h a true
-        c := c'
-        heap := heap'
-        match own with
-        | some v => if v != .none then heap ← Heap.setSlot heap a "sofa" v
-        | none => pure ()
-      | some _ => throw Err.attributeError
-      | none => throw Err.keyError
-  pure { ts := ts, cas := c, heap := heap }
+    Except Err Loaded :=
+  match loadTs K tsArg mergeTs doc with
+  | .error e => .error e
+  | .ok ts =>
+    match sofaPass K ts tsIdx ci doc.fss doc.fss { cas := Cas.empty, heap := hp } with
+    | .error e => .error e
+    | .ok s1 =>
+      match fsPass K ts tsIdx doc.fss s1 with
+      | .error e => .error e
+      | .ok s =>
+        match fixUps s.fss s.deferred s.heap with
+        | .error e => .error e
+        | .ok heap =>
+          let c : Cas := { s.cas with nextXid := s.maxId + 1, nextSofaNum := s.maxNum + 1 }
+          match viewsPass ts ci lenient s.fss doc.views { cas := c, heap := heap } with
+          | .error e => .error e
+          | .ok v => .ok { ts := ts, cas := v.cas, heap := v.heap }
 
 end Cassis.Json
